@@ -3,9 +3,9 @@
    Every theorem is for ANY match oracle find_all whose result lists are ascending, non-overlapping and within the
    subject (that premise is the only thing assumed about ICU / Go regexp), any unit type, subject, position,
    occurrence and replacement. *)
-From Coq Require Import List Arith Bool.
+From Coq Require Import List NArith Arith Bool.
 Import ListNotations.
-From GMS Require Import Sys.C33Regex Sys.C33RegexProofs.
+From GMS Require Import Sys.C33Regex Sys.C33RegexProofs Sys.C33Matcher Sys.C33MatcherProofs.
 
 Theorem C33_like_iff_instr_pos :
   forall (U : Type) (find_all : list U -> list (nat * nat)) (s : list U),
@@ -89,3 +89,32 @@ Example C33_nonvacuous :
   instr nat dot_oracle [7; 8; 9] 1 2 false = 0 /\ replace nat dot_oracle [7; 8; 9] [0] 1 2 = [7; 8; 9].
 Proof. exact (conj dot_oracle_wf laws_nonvacuous). Qed.
 Print Assumptions C33_nonvacuous.
+
+(* ---------- layer 2: the reference matcher of the common subset (Sys/C33Matcher.v) ---------- *)
+
+(* matcher_sound: for every pattern of the subset and every subject, a match reported by the reference matcher lies
+   inside the subject and its text belongs to the language of the pattern (inductive semantics M, with the text before
+   and after the match as context for ^ and $) *)
+Theorem C33_matcher_sound :
+  forall (r : re) (s : list N) (a b : nat), find r s = Some (a, b) ->
+  a <= b /\ b <= length s /\ M r (rev (firstn a s)) (firstn (b - a) (skipn a s)) (skipn b s).
+Proof. exact matcher_sound. Qed.
+Print Assumptions C33_matcher_sound.
+
+(* the reported match is the leftmost one the matcher accepts.  Partial: leftmost with respect to the matcher, not to
+   M (completeness of the backtracking matcher w.r.t. M, and equality of its priority with ICU's, are not proved -
+   the latter is compared by the correspondence on every generated case) *)
+Theorem C33_matcher_leftmost_partial :
+  forall (r : re) (s : list N) (a b : nat), find r s = Some (a, b) ->
+  forall j, j < a -> match_at r (rev (firstn j s)) (skipn j s) = None.
+Proof. exact matcher_leftmost. Qed.
+Print Assumptions C33_matcher_leftmost_partial.
+
+Example C33_matcher_nonvacuous :
+  find (Seq (Alt (Chr 97) (Seq (Chr 97) (Chr 98))) (Opt (Alt (Chr 99) (Seq (Chr 98) (Seq (Chr 99) (Chr 100))))))
+       [120; 97; 98; 99; 100; 121]%N = Some (1, 5)
+  /\ find (Seq Bol (Plus (Cls false [(97, 99)]%N))) [97; 98; 122]%N = Some (0, 2)
+  /\ find (Seq (Star Any) Eol) [97; 98]%N = Some (0, 2)
+  /\ find (Chr 122) [97; 98]%N = None.
+Proof. exact matcher_nonvacuous. Qed.
+Print Assumptions C33_matcher_nonvacuous.
